@@ -183,6 +183,23 @@ def run_history(cfg, ops):
                     if typ == 'MARKET':
                         feed()
                         o.execute()
+            elif kind == 'twin':
+                # a second order with the same symbol, side, type, quantity and price as a resting one, reduce-only flag inverted when possible
+                act = [o for o in live if o.is_active and o.type != 'MARKET']
+                if not act:
+                    continue
+                o0 = act[op[1] % len(act)]
+                s = o0.symbol
+                pos = model.q(s)
+                closing_side = None if pos == 0 else ('sell' if pos > 0 else 'buy')
+                ro = bool((not o0.reduce_only) and closing_side == o0.side) if op[2] else bool(o0.reduce_only and closing_side == o0.side)
+                what = f"twin-{o0.side}-{o0.type}{'-reduce-only' if ro else ''}"
+                applied.append(op)
+                flags.add('twin-order' + (':reduce-only-beside-regular' if ro != bool(o0.reduce_only) else ''))
+                o = submit(s, o0.side, o0.type, abs(o0.qty), o0.price, ro, what)
+                if o is None or vios:
+                    break
+                live.append(o)
             elif kind in ('cancel', 'execute'):
                 act = [o for o in live if o.is_active]
                 if not act:
@@ -272,6 +289,7 @@ def run_shard(acc, shard, nshards, seed, tier):
     sub = lambda k: st.tuples(st.just(k), st.integers(0, 1), st.sampled_from(['buy', 'sell']),
                               st.sampled_from(['MARKET', 'MARKET', 'LIMIT', 'STOP']), sizes, st.integers(-30, 30), st.booleans())
     op = st.one_of(sub('submit'), sub('submit'), sub('submit'), sub('submit_cancel'), st.tuples(st.just('cancel'), st.integers(0, 9)),
+                   st.tuples(st.just('twin'), st.integers(0, 9), st.booleans()),
                    st.tuples(st.just('execute'), st.integers(0, 9)), st.tuples(st.just('execute'), st.integers(0, 9)),
                    st.tuples(st.just('price'), st.integers(0, 1), st.integers(-40, 40)))
     cfgs = st.fixed_dictionaries(dict(fee=st.sampled_from([0.0, 0.0004, 0.001, 0.0075]), balance=st.sampled_from([10_000.0, 1_000.0, 250.5]),
